@@ -165,6 +165,7 @@ def solve(pc, goal, timeout_ms, want_model=True, light=False, recheck=False):
                 return 'unsat', None, 'z3+cvc5' if v2 == 'unsat' else 'z3', time.time() - t0
             return 'unsat', None, 'z3', time.time() - t0
     s = z3.Solver()
+    s.set('max_memory', 4096)      # MB: a query that needs more counts as undecided (one seeded change drove z3 to 65 GB)
     # string-heavy queries: z3's sequence solver is erratic (ms or timeout on the same query), cvc5 is steady: give z3 a
     # short first try, cvc5 the full budget, and z3 the full budget last
     stringy = (not light) and any('str.' in c.sexpr() for c in list(pc)[-12:] + [ng])
